@@ -15,7 +15,7 @@ from vt import verify as V
 from vt import smt
 from contracts import gmm as G
 from contracts import ivector as IV
-from props.common import new_interp, collapse, guard
+from props.common import new_interp, collapse, guard, bounded
 
 FUNCTIONS = ["ivector.IVectorMachine.fit (bag branch: per-partition E-step, pairwise tree reduction, copy-back; list branch)",
              "ivector.IVectorStats.__add__", "ivector.e_step / m_step (by contract)"]
@@ -191,6 +191,9 @@ def iv_fit(ctx):
 
 
 GROUPS = [guard(iv_fit)]
+BOUNDED = [bounded("fa_repro.py", "bag_vs_list", "C12.fa.bag",
+                   "ISV/JFA trained from a Dask bag with 1, 2, 3 and one-per-element partitions, partitions mixing classes and unsorted labels, equal list "
+                   "training exactly (rationals) in U, V, D -- regrouping by class, per-class reduction and copy-back (thorough tier: also worker processes)")]
 SHARED = [("C10", "stats_ops", ["C10.stats.add"]), ("C10", "estep", ["C10.estep.nij", "C10.estep.snormij", "C10.estep.nij_sigma_wij2", "C10.estep.fnorm_sigma_wij"])]
 REPLAY = [("C12.iv", "iv_repro.py", "bag", {})]
 TRUSTED = ["Dask contract (DESIGN §3) incl. Bag.to_delayed() yielding the partitions in order", "range-split / partition-sum axioms for Σ"]
